@@ -85,8 +85,9 @@ class Walker(ast.NodeVisitor):
             q = ''
         else:
             p = self.scopes[parent]
-            q = name if p.kind == 'module' else (
-                p.qualname + ('.' if p.kind == 'class' else '.<locals>.') + name)
+            qn = f'<{name}>' if kind in ('lambda', 'comprehension') else name
+            q = qn if p.kind == 'module' else (
+                p.qualname + ('.' if p.kind == 'class' else '.<locals>.') + qn)
         s = Scope(len(self.scopes), kind, name, parent if parent is not None else 0, lineno, q)
         self.scopes.append(s)
         if parent is not None:
@@ -565,8 +566,12 @@ class Package:
                 for n, line, ev in s.loads:
                     if ev:
                         loads.setdefault(n, line)
+                o = s
+                while o.kind in ('lambda', 'comprehension'):
+                    o = m.scopes[o.parent]
                 scopes.append({
                     'kind': s.kind, 'parent': s.parent, 'qualname': s.qualname, 'lineno': s.lineno,
+                    'owner': o.qualname,       # nearest enclosing def/class ('' = module body)
                     'bound': [I(n) for n in s.bound_names()],
                     'globals': [I(n) for n in sorted(s.globals)],
                     'nonlocals': [I(n) for n in sorted(s.nonlocals)],
